@@ -742,6 +742,8 @@ def oracle(ctx: Ctx, deep: bool = False):
             yield from engine_checks()
         except Exception as e:  # noqa: BLE001
             yield Violation("masked-operator-raises", f"a masked operator raises {err_name(e)}: {e}", dict(rep, op="raises"))
+    # (4b) every data-consistency site under direct/nn on the real blocks
+    yield from oracle_nn_blocks(ctx, deep)
     # (5) exhaustive small scope on bit patterns: every value class x every mask value, all four dtypes
     if True:
         vals = torch.tensor([0.0, -0.0, 1.0, -2.5, float("inf"), float("-inf"), F32MAX, -F32MAX, 1e-45, -1e-45, 7.0, -7.0])
@@ -758,6 +760,243 @@ def oracle(ctx: Ctx, deep: bool = False):
                                                  "mask": _rep_tensor(m)})
 
 
+# --------------------------------------------------------------------------------------------------
+# every data-consistency site under direct/nn, on the REAL blocks with tiny parameters
+class JunkForward:
+    """forward operator = fft2; when armed, the *predicted k-space* is overwritten at the selected positions"""
+
+    def __init__(self):
+        self.sel = self.junk = None
+        self.gate = None        # None: every call; else only while gate[0] is True (inside a masked operator method)
+        self.calls = 0
+
+    def __call__(self, data, dim=None, **kw):
+        import direct.data.transforms as T
+        out = T.fft2(data, dim=dim)
+        self.calls += 1
+        if self.sel is not None and out.shape == self.sel.shape and (self.gate is None or self.gate[0]):
+            out = out.clone()
+            out[self.sel] = self.junk[self.sel]
+        return out
+
+
+class RecBackward:
+    """backward operator = ifft2, recording its inputs (while the gate is open)"""
+
+    def __init__(self):
+        self.seen = []
+        self.gate = None
+
+    def __call__(self, data, dim=None, **kw):
+        import direct.data.transforms as T
+        if self.gate is None or self.gate[0]:
+            self.seen.append(data.detach().clone())
+        return T.ifft2(data, dim=dim)
+
+
+def _gate_method(net, name, gate):
+    orig = getattr(net, name)
+
+    def wrapped(*a, **kw):
+        old = gate[0]
+        gate[0] = True
+        try:
+            return orig(*a, **kw)
+        finally:
+            gate[0] = old
+    setattr(net, name, wrapped)
+
+
+def nn_block_specs():
+    """name -> (builder(F, B) -> net, call(net, y, m, S) -> output tensor, mode, three_d)
+    modes: 'hook-all'    junk in every forward-operator output at unsampled positions must not change the output
+           'hook-gated'  same, for the forward calls inside the net's masked `_forward_operator`
+           'block-data'  a cascade block: junk in the measured k-space at unsampled positions must not change the output
+    all_b_masked: every k-space handed to the backward operator (while gated, if gated) is exactly +0 off the mask"""
+    from direct.nn.cirim.cirim import CIRIM
+    from direct.nn.conjgradnet.conjgradnet import ConjGradNet
+    from direct.nn.iterdualnet.iterdualnet import IterDualNet
+    from direct.nn.jointicnet.jointicnet import JointICNet
+    from direct.nn.kikinet.kikinet import KIKINet
+    from direct.nn.lpd.lpd import LPDNet
+    from direct.nn.recurrentvarnet.recurrentvarnet import RecurrentVarNet
+    from direct.nn.rim.rim import RIM
+    from direct.nn.types import InitType, ModelName
+    from direct.nn.varnet.varnet import EndToEndVarNet
+    from direct.nn.varsplitnet.varsplitnet import MRIVarSplitNet
+    from direct.nn.vsharp.vsharp import VSharpNet, VSharpNet3D
+    from direct.nn.xpdnet.xpdnet import XPDNet
+    import direct.data.transforms as T
+
+    un = dict(image_unet_num_filters=2, image_unet_num_pool_layers=1)
+    return {
+        "LPDNet": (lambda F, B: LPDNet(F, B, num_iter=2, num_primal=2, num_dual=2, primal_model_architecture="UNET",
+                                       dual_model_architecture="CONV", primal_unet_num_filters=2, primal_unet_num_pool_layers=1),
+                   lambda n, y, m, S: n(y, S, m), "hook-all", True, False),
+        "XPDNet": (lambda F, B: XPDNet(F, B, num_primal=2, num_dual=1, num_iter=2, use_primal_only=True,
+                                       image_model_architecture="MWCNN", mwcnn_hidden_channels=2),
+                   lambda n, y, m, S: n(y, m, S), "hook-all", True, False),
+        "JointICNet": (lambda F, B: JointICNet(F, B, 2, False, kspace_unet_num_filters=2, kspace_unet_num_pool_layers=1,
+                                               sens_unet_num_filters=2, sens_unet_num_pool_layers=1, **un),
+                       lambda n, y, m, S: n(y, m, S), "hook-all", True, False),
+        "KIKINet": (lambda F, B: KIKINet(F, B, image_model_architecture="UNET", kspace_model_architecture="CONV", num_iter=3,
+                                         kspace_conv_hidden_channels=2, kspace_conv_n_convs=2, **un),
+                    lambda n, y, m, S: n(y, m, S), "hook-all", True, False),
+        "VSharpNet": (lambda F, B: VSharpNet(F, B, num_steps=2, num_steps_dc_gd=2, no_parameter_sharing=False,
+                                             initializer_channels=(2, 2, 2), initializer_dilations=(1, 1, 1),
+                                             auxiliary_steps=-1, **un),
+                      lambda n, y, m, S: torch.stack(n(y, S, m)), "hook-all", True, False),
+        "VSharpNet3D": (lambda F, B: VSharpNet3D(F, B, num_steps=2, num_steps_dc_gd=2, no_parameter_sharing=False,
+                                                 initializer_channels=(2, 2, 2), initializer_dilations=(1, 1, 1),
+                                                 auxiliary_steps=-1, unet_num_filters=2, unet_num_pool_layers=1),
+                        lambda n, y, m, S: torch.stack(n(y, S, m)), "hook-all", True, True),
+        "MRIVarSplitNet": (lambda F, B: MRIVarSplitNet(F, B, 2, 2, InitType.SENSE, True, ModelName.UNET, True, None, **un),
+                           lambda n, y, m, S: n(y, S, m), "hook-all", True, False),
+        "IterDualNet": (lambda F, B: IterDualNet(F, B, num_iter=2, kspace_unet_num_filters=2, kspace_unet_num_pool_layers=1, **un),
+                        lambda n, y, m, S: n(y, m, S), "hook-gated", True, False),
+        "RIM": (lambda F, B: RIM(F, B, hidden_channels=4, length=2, depth=1),
+                lambda n, y, m, S: n(T.reduce_operator(T.ifft2(y, dim=(2, 3)), S, 1), y, m, S)[0][-1], "hook-all", True, False),
+        "ConjGradNet": (lambda F, B: ConjGradNet(F, B, num_steps=2, cg_iters=3, resnet_hidden_channels=2, resnet_num_blocks=1),
+                        lambda n, y, m, S: n(y, S, m), "hook-all", True, False),
+        "CIRIM": (lambda F, B: CIRIM(F, B, depth=1, time_steps=2, recurrent_hidden_channels=4, num_cascades=2),
+                  lambda n, y, m, S: next(n(y, m, S))[-1][-1], "hook-all", False, False),
+        "EndToEndVarNetBlock": (lambda F, B: EndToEndVarNet(F, B, 2, 2, 1, in_channels=2).layers_list[0],
+                                None, "block-data", False, False),
+        "RecurrentVarNetBlock": (lambda F, B: RecurrentVarNet(F, B, num_steps=2, recurrent_hidden_channels=4,
+                                                              recurrent_num_layers=1).block_list[0],
+                                 None, "block-data", False, False),
+    }
+
+
+def nn_block_inputs(seed: int, three_d: bool):
+    g = torch.Generator().manual_seed(seed)
+    r = lambda *a: int(torch.randint(*a, (1,), generator=g))  # noqa: E731
+    n, c, h, w = r(1, 3), r(1, 4), 8 * r(1, 3), 8 * r(1, 3)
+    sp = [r(2, 4), h, w] if three_d else [h, w]
+    kshape = [n, c] + sp + [2]
+    mshape = [n, 1] + ([1] if three_d else []) + [h, w, 1]
+    m = torch.rand(mshape, generator=g) < [0.5, 0.2, 0.8][seed % 3]
+    m[..., 0, :] = True
+    if seed % 7 == 0:
+        m[:] = False
+    if seed % 11 == 0:
+        m = m.to(torch.int32)
+    S = torch.randn(kshape, generator=g)
+    full = torch.randn(kshape, generator=g) * (10.0 ** [0, 0, 3, -3][seed % 4])
+    y = torch.where(m == 0, torch.tensor([0.0]), full)
+    junk = torch.randn(kshape, generator=g) * 1e6
+    pick = torch.rand(kshape, generator=g)
+    junk[pick < 0.2] = float("inf")
+    junk[(pick >= 0.2) & (pick < 0.3)] = -0.0
+    junk[(pick >= 0.3) & (pick < 0.4)] = -F32MAX
+    sel = (m == 0).expand(kshape).clone()
+    return kshape, m, S, full, y, junk, sel
+
+
+def check_nn_block(name: str, seed: int):
+    """-> list of (key, what)"""
+    build, call, mode, all_b_masked, three_d = nn_block_specs()[name]
+    kshape, m, S, full, y, junk, sel = nn_block_inputs(seed, three_d)
+    F, B = JunkForward(), RecBackward()
+    torch.manual_seed(seed)
+    net = build(F, B).eval()
+    gate = [False]
+    if mode == "hook-gated":
+        F.gate = B.gate = gate
+        _gate_method(net, "_forward_operator", gate)
+        _gate_method(net, "_backward_operator", gate)
+    out = []
+    with torch.no_grad():
+        if mode == "block-data":
+            y2 = y.clone()
+            y2[sel] = junk[sel]
+            cur = full + 0.5
+            args = (None,) if name.startswith("Recurrent") else ()
+            o1 = net(cur, y, m, S, *args)
+            o2 = net(cur, y2, m, S, *args)
+            o1, o2 = (o1[0], o2[0]) if isinstance(o1, tuple) else (o1, o2)
+            if (_bits(o1) != _bits(o2)).any():
+                out.append((f"nn-{name}-depends-on-unsampled-data",
+                            f"{name}: output changes with unsampled entries of the measured k-space"))
+            return out
+        o1 = call(net, y, m, S)
+        seen = list(B.seen)
+        F.sel, F.junk = sel, junk
+        calls_before = F.calls
+        o2 = call(net, y, m, S)
+        if F.calls == calls_before:
+            out.append((f"nn-{name}-no-forward-call", f"{name}: the forward operator was never called"))
+        if _bits(o1).shape != _bits(o2).shape or (_bits(o1) != _bits(o2)).any():
+            out.append((f"nn-{name}-depends-on-unsampled-prediction",
+                        f"{name}: output changes with unsampled entries of the predicted k-space F(E(x))"))
+        if all_b_masked:
+            selnp = sel.numpy()
+            for t in seen:
+                if list(t.shape) == kshape and (_bits(t)[selnp] != 0).any():
+                    out.append((f"nn-{name}-masked-quantity-not-zero",
+                                f"{name}: a k-space handed to the backward operator is not exactly +0 off the sampling mask"))
+                    break
+    return out
+
+
+def check_vsharp_engine(seed: int, three_d: bool):
+    """VSharpNet(3D)Engine.forward_function: output k-space = masked_kspace + apply_mask(F(E(x)), ~mask)"""
+    from omegaconf import OmegaConf
+    from direct.config.defaults import DefaultConfig
+    from direct.nn.vsharp.vsharp_engine import VSharpNet3DEngine, VSharpNetEngine
+
+    name = "VSharpNet3D" if three_d else "VSharpNet"
+    build = nn_block_specs()[name][0]
+    kshape, m, S, full, y, junk, sel = nn_block_inputs(seed, three_d)
+    m = m.bool()
+    torch.manual_seed(seed)
+    Fm, Fe = JunkForward(), JunkForward()
+    model = build(Fm, RecBackward()).eval()
+    eng = (VSharpNet3DEngine if three_d else VSharpNetEngine)(OmegaConf.structured(DefaultConfig), model, "cpu", Fe, RecBackward())
+    eng.ndim = 3 if three_d else 2
+    out = []
+    with torch.no_grad():
+        data = lambda: {"masked_kspace": y.clone(), "sampling_mask": m, "sensitivity_map": S.clone()}  # noqa: E731
+        _, k1 = eng.forward_function(data())
+        Fe.sel, Fe.junk = ~sel, junk            # the engine keeps the prediction on the complement: junk on the SAMPLED positions
+        _, k2 = eng.forward_function(data())
+    samp = (~sel).numpy()
+    if (_bits(k1) != _bits(k2)).any():
+        out.append((f"nn-{name}Engine-prediction-leaks-into-sampled",
+                    f"{name}Engine.forward_function: output k-space changes with the predicted k-space at sampled positions"))
+    if not torch.equal(k1[~sel], y[~sel]):
+        out.append((f"nn-{name}Engine-alters-sampled", f"{name}Engine.forward_function: sampled k-space values are altered"))
+    return out
+
+
+NN_BLOCKS = ["LPDNet", "XPDNet", "JointICNet", "KIKINet", "VSharpNet", "VSharpNet3D", "MRIVarSplitNet", "IterDualNet", "RIM",
+             "ConjGradNet", "CIRIM", "EndToEndVarNetBlock", "RecurrentVarNetBlock"]
+
+
+def oracle_nn_blocks(ctx: Ctx, deep: bool):
+    rng = ctx.rng
+    for name in NN_BLOCKS:
+        for j in range(ctx.budget(3, 24) * (2 if deep else 1)):
+            seed = rng.randrange(1, 2 ** 20)
+            ctx.count(("o-nn", name, seed), seed % 7 != 0, bucket=f"oracle/nn/{name}")
+            try:
+                res = check_nn_block(name, seed)
+            except Exception as e:  # noqa: BLE001
+                res = [(f"nn-{name}-raises", f"{name} raises {err_name(e)}: {str(e)[:200]}")]
+            for key, what in res:
+                yield Violation(key, what, {"op": "nn_block", "block": name, "seed": seed})
+    for three_d in (False, True):
+        for j in range(ctx.budget(2, 12)):
+            seed = rng.randrange(1, 2 ** 20)
+            ctx.count(("o-nn-engine", three_d, seed), seed % 7 != 0, bucket="oracle/nn/VSharpNet" + ("3D" if three_d else "") + "Engine")
+            try:
+                res = check_vsharp_engine(seed, three_d)
+            except Exception as e:  # noqa: BLE001
+                res = [("nn-VSharpEngine-raises", f"VSharpNet engine raises {err_name(e)}: {str(e)[:200]}")]
+            for key, what in res:
+                yield Violation(key, what, {"op": "nn_engine", "three_d": three_d, "seed": seed})
+
+
 def replay(rep: dict) -> bool:
     import direct.data.transforms as T
     from direct.nn.conjgradnet.conjgrad import ConjGrad
@@ -765,6 +1004,10 @@ def replay(rep: dict) -> bool:
 
     op = rep.get("op")
     try:
+        if op == "nn_block":
+            return bool(check_nn_block(rep["block"], rep["seed"]))
+        if op == "nn_engine":
+            return bool(check_vsharp_engine(rep["seed"], rep["three_d"]))
         if op == "apply_mask":
             return check_apply_mask(_from_rep(rep["kspace"]), _from_rep(rep["mask"]), rep.get("via", "apply_mask")) is not None
         if op == "module_history":
